@@ -1,17 +1,84 @@
 (* C11 — Admission: well-formed messages are accepted, accepted ones are sound.
    Statements only; each is closed by [exact] of a lemma proved in
-   ValidProofs.v / ValidRefuted.v and followed by Print Assumptions.
+   ValidProofs.v, ValidJsonProofs.v, ValidTheorems.v (and ValidHistory.v for
+   the record of the defects found) and followed by Print Assumptions.
 
-   THE TREE AS IT STANDS.  Both directions of the property are REFUTED by
-   genuine defects of /repo:
-     F1  validKind is [0 <= kind || kind <= 65535]: every integer passes;
-     F2  validNaddr cuts with strings.Split: a d part containing ':' is refused.
-   This file states the refutations (witnesses) and the strongest partial
-   theorems.  It compiles only against the defective guards; after the two
-   repairs it is replaced by C11Fixed.v (full theorems). *)
-From Moc Require Import Base Json CodecMsg Codec CodecProofs Valid ValidProofs ValidJsonProofs ValidRefuted.
+   Reading of the property.  "Well-formed under NIP-01" is [wf_json_cmsg] on
+   the JSON value of the text (label, arity, member names and types, lowercase
+   hex of the right length, kinds 0..65535, integer timestamps, non-negative
+   since/until/limit with since <= until, one-letter tag filters with string
+   values, #a values kind:pubkey:d for ANY d) resp. [wf_nip01] on the decoded
+   message; "the constraints" are [constraints] (the same list without
+   since <= until).  Insignificant white space includes white space before the
+   opening bracket.  JSON null in place of a value, duplicate members and
+   labels spelled with escapes are not claimed either way.
+
+   All comparison guards of the validators, the arity and label tests, the
+   kind range, the way validNaddr cuts its argument and the label pattern are
+   regenerated from the source on every run (Gen/GenMsg.v, Gen/GenCodec.v): a
+   regression of validKind, validNaddr or the pattern breaks
+   [g_valid_kind_spec], [naddr_split_is_3] resp. [lead_ws_is_allowed]. *)
+From Moc Require Import Base Json CodecMsg Codec CodecProofs Valid ValidProofs ValidJsonProofs ValidTheorems ValidHistory.
 From Moc.Gen Require Import GenMsg GenCodec.
 Open Scope Z_scope.
+
+(* ================================================================== *)
+(** * The property *)
+
+(** every well-formed client message text is parsed and judged valid,
+    whatever insignificant white space precedes it *)
+Theorem C11_gate_complete : forall lead j,
+  wf_json_cmsg false j = true -> gate_admits (mkCText lead false j) = true.
+Proof. exact gate_complete_any_ws. Qed.
+Print Assumptions C11_gate_complete.
+
+(** conversely, whatever passes the gate is a completely filled message with
+    the label of the text that breaks none of the constraints *)
+Theorem C11_gate_sound : forall t,
+  gate_admits t = true ->
+  exists m, parse_client_msg t = Val m /\ wf_cmsg m /\
+            first_label (ct_json t) = Some (label_of_cmsg m) /\ constraints m.
+Proof. exact gate_sound. Qed.
+Print Assumptions C11_gate_sound.
+
+(** ValidClientMsg decides NIP-01 well-formedness of a message value exactly *)
+Theorem C11_valid_is_wf : forall m, valid_client_msg m = wf_nip01b m.
+Proof. exact valid_is_wf. Qed.
+Print Assumptions C11_valid_is_wf.
+
+(** no false rejection *)
+Theorem C11_valid_complete : forall m, wf_nip01 m -> valid_client_msg m = true.
+Proof. exact valid_complete. Qed.
+Print Assumptions C11_valid_complete.
+
+(** no unsound acceptance *)
+Theorem C11_valid_sound : forall m, valid_client_msg m = true -> constraints m.
+Proof. exact valid_sound. Qed.
+Print Assumptions C11_valid_sound.
+
+(** the kind guard is the range 0..65535 *)
+Theorem C11_kind_guard : forall k, g_valid_kind k = true <-> kind_spec k.
+Proof. intro k. rewrite g_valid_kind_spec. apply kind_specb_spec. Qed.
+Print Assumptions C11_kind_guard.
+
+(** validNaddr accepts exactly kind:pubkey:d, for any d (colons included) *)
+Theorem C11_valid_naddr : forall s, valid_naddr s = true <-> naddr_spec s.
+Proof. exact valid_naddr_iff. Qed.
+Print Assumptions C11_valid_naddr.
+
+(** white space before the opening bracket is irrelevant *)
+Theorem C11_leading_ws_irrelevant : forall esc j,
+  gate_admits (mkCText true esc j) = gate_admits (mkCText false esc j).
+Proof. exact admit_leading_ws_irrelevant. Qed.
+Print Assumptions C11_leading_ws_irrelevant.
+
+(** the gate on the canonical text of a well-formed message value *)
+Theorem C11_admit_complete : forall m, wf_nip01 m -> wf_cmsg m -> gate_admits (plain_text (enc_cmsg m)) = true.
+Proof. exact admit_complete. Qed.
+Print Assumptions C11_admit_complete.
+
+(* ================================================================== *)
+(** * Supporting statements (hold whatever the kind guard and the splitter are) *)
 
 (** ValidClientMsg decides exactly the NIP-01 constraint list instantiated
     with the code's own kind guard and address validator (holds on every
@@ -100,38 +167,29 @@ Example C11_example_wf :
   naddr_spec ex_addr.
 Proof. split; [reflexivity|]. split; [reflexivity|]. apply naddr_specb_spec. reflexivity. Qed.
 
-(* ------------------------------------------------------------------ *)
-(** Refutations on this tree. *)
+(** the former witnesses now come out right *)
+Example C11_example_kind_rejected : valid_client_msg msg_kind_70000 = false.
+Proof. reflexivity. Qed.
+Example C11_example_colon_accepted : valid_client_msg msg_addr_colon = true /\ valid_naddr ex_addr = true.
+Proof. split; reflexivity. Qed.
+Example C11_example_leading_ws :
+  gate_admits (mkCText true false (JArr [JStr L_CLOSE; JStr []])) = true.
+Proof. reflexivity. Qed.
 
-Theorem C11_kind_guard_refuted : exists k, ~ kind_spec k /\ g_valid_kind k = true.
-Proof. exact kind_guard_refuted. Qed.
-Print Assumptions C11_kind_guard_refuted.
+(* ================================================================== *)
+(** * Record of the defects found by this check before the repairs
+      (about explicit copies of the former guards; see ValidHistory.v) *)
 
-Theorem C11_kind_guard_accepts_everything : forall k, g_valid_kind k = true.
-Proof. exact g_valid_kind_always. Qed.
-
-(** soundness fails: a message judged valid breaks a constraint (kind 70000) *)
-Theorem C11_valid_sound_refuted : exists m, valid_client_msg m = true /\ ~ constraints m.
-Proof. exact valid_sound_refuted. Qed.
-Print Assumptions C11_valid_sound_refuted.
-
-(** completeness fails: a well-formed message is judged invalid (#a value with d = "x:y") *)
-Theorem C11_valid_complete_refuted : exists m, wf_nip01 m /\ valid_client_msg m = false.
-Proof. exact valid_complete_refuted. Qed.
-Print Assumptions C11_valid_complete_refuted.
-
-Theorem C11_naddr_refuted : exists s, naddr_spec s /\ valid_naddr s = false.
-Proof. exact naddr_refuted. Qed.
-
-(** What holds: soundness up to kind ranges, completeness up to ':' in d. *)
-Theorem C11_valid_sound_partial : forall m,
-  valid_client_msg m = true ->
-  cmsg_okb (fun _ => true) (naddr_okb (fun _ => true)) false m = true.
-Proof. exact valid_sound_partial. Qed.
-Print Assumptions C11_valid_sound_partial.
-
-Theorem C11_valid_complete_partial : forall m,
-  cmsg_okb kind_specb (fun s => naddr_specb s && d_colon_free s) true m = true ->
-  valid_client_msg m = true.
-Proof. exact valid_complete_partial. Qed.
-Print Assumptions C11_valid_complete_partial.
+Theorem C11_history_F1_kind_guard_accepted_everything : forall k, kind_guard_before k = true.
+Proof. exact kind_guard_before_always. Qed.
+Theorem C11_history_F1_soundness_was_refuted :
+  cmsg_okb kind_guard_before naddr_before true msg_kind_70000 = true /\ constraintsb msg_kind_70000 = false.
+Proof. exact valid_sound_was_refuted. Qed.
+Theorem C11_history_F2_completeness_was_refuted :
+  wf_nip01 msg_addr_colon /\ cmsg_okb kind_guard_before naddr_before true msg_addr_colon = false.
+Proof. exact valid_complete_was_refuted. Qed.
+Theorem C11_history_F2_address_was_refused : naddr_spec addr_colon_in_d /\ naddr_before addr_colon_in_d = false.
+Proof. exact naddr_before_refuted. Qed.
+Theorem C11_history_F10_anchored_pattern : str_eqb re_anchored re_lead_ws = false.
+Proof. exact anchored_pattern_rejects_leading_ws. Qed.
+Print Assumptions C11_history_F2_completeness_was_refuted.
